@@ -1,6 +1,6 @@
 (** * C02 — Torque propagation and balance along the chain at every instant.  Statements only; generic in the arithmetic. *)
-From Coq Require Import ZArith String List Bool PrimFloat.
-From GP Require Import ArithDef FloatUtil UnitsCore PyUnits QOps Motor Solver SolverProofs Examples.
+From Coq Require Import ZArith String List Bool PrimFloat Reals.
+From GP Require Import ArithDef FloatUtil UnitsCore PyUnits RealArith UnitsR QOps Motor Solver SolverProofs SolverSI ChainSI Examples.
 Import ListNotations.
 
 (** at every recorded instant (t, s) of every reachable state:
@@ -18,6 +18,19 @@ Theorem C02_torque_balance : forall (A : Arith) (c : @chain A) load ops p w st t
   pointwise q_sub (s_dtq s) (s_ltq s) (s_tq s).
 Proof. exact (@reachable_torque). Qed.
 
+(** end to end, in SI, whatever the units (over the reals): with [Gg c] the product over the chain of (efficiency x ratio), the output
+    element's driving torque is the motor's times [Gg c], and the motor's load torque is the output element's divided by [Gg c] *)
+Theorem C02_driving_torque_end_to_end : forall (c : @chain RA) load ops p w st t s d0 D0,
+  exec c load ops (initial p w) = Ok st -> In (t, s) (y_hist st) -> headq (s_dtq s) = Ok d0 -> si d0 = Ok D0 ->
+  exists dl, lastq (s_dtq s) = Ok dl /\ si dl = Ok (D0 * Gg c)%R.
+Proof. exact driving_torque_end_to_end. Qed.
+Theorem C02_load_torque_end_to_end : forall (c : @chain RA) load ops p w st t s ll LL,
+  exec c load ops (initial p w) = Ok st -> In (t, s) (y_hist st) -> lastq (s_ltq s) = Ok ll -> si ll = Ok LL ->
+  exists l0, headq (s_ltq s) = Ok l0 /\ si l0 = Ok (LL / Gg c)%R /\ Gg c <> 0%R.
+Proof. exact load_torque_end_to_end. Qed.
+Theorem C02_Gg_is_the_product : forall c : @chain RA,
+  Gg c = fold_right (fun (e : @elem RA) (acc : R) => ((e_eff e : R) * (e_ratio e : R) * acc)%R) 1%R (c_elems c).
+Proof. reflexivity. Qed.
 Example C02_nonvacuous : Nat.eqb (hist_len (ex_final false 5)) 21 && moved (ex_final false 5) = true.
 Proof. vm_compute. reflexivity. Qed.
 
